@@ -130,8 +130,15 @@ func TestC13Paging(t *testing.T) {
 			}
 		}
 		// build: entries, holes in the middle, slot reuse
-		n0 := pick(t, []int{0, 1, 2, 5, 12, 30, 31, 32, 33, 40, 64, 90, 150}, "entries")
+		n0 := pick(t, []int{0, 1, 2, 5, 12, 30, 31, 32, 33, 40, 64, 90, 150, 520, 700}, "entries")
+		big := n0 >= 500
 		for i := 0; i < n0 && !cut; i++ {
+			if big {
+				// a directory of many blocks, long names (the listing of all of it exceeds any reply size)
+				seq++
+				do(x.Create(dref, nameOfLen(pick(t, []int{100, 112}, "biglen"), fmt.Sprintf("n%d_", seq))))
+				continue
+			}
 			addOne()
 		}
 		for i := 0; i < rapid.IntRange(0, n0/2+1).Draw(t, "removals") && !cut; i++ {
@@ -140,8 +147,11 @@ func TestC13Paging(t *testing.T) {
 		for i := 0; i < rapid.IntRange(0, 10).Draw(t, "readds") && !cut; i++ {
 			addOne()
 		}
-		if rapid.IntRange(0, 3).Draw(t, "restart") == 0 {
+		if rapid.IntRange(0, 3).Draw(t, "restart") == 0 || (big && rapid.Bool().Draw(t, "restartbig")) {
 			do(x.Restart())
+		}
+		if big {
+			St.Class("directory_of_500_or_more_long_names")
 		}
 		if cut {
 			St.Class("case_cut_short_by_another_oracle")
@@ -193,6 +203,13 @@ func TestC13Paging(t *testing.T) {
 				for _, e := range ents {
 					if err := checkEntry(x, d, e, plus); err != nil {
 						fail("page %d (cookie %d): %v", pages, req.Cookie, err)
+					}
+					// the file id listed is that of the named object: LOOKUP of the name agrees
+					if e.Name != "." && e.Name != ".." {
+						lr := api.NFSPROC3_LOOKUP(nt.LOOKUP3args{What: nt.Diropargs3{Dir: fh, Name: nt.Filename3(e.Name)}})
+						if lr.Status != nt.NFS3_OK || uint64(lr.Resok.Obj_attributes.Attributes.Fileid) != e.Fileid {
+							fail("page %d lists %q with file id %d, but LOOKUP of that name answers status %d, file id %d", pages, trunc(e.Name, 24), e.Fileid, lr.Status, lr.Resok.Obj_attributes.Attributes.Fileid)
+						}
 					}
 					if in := start[e.Name]; in != nil && !in.gone && x.M.Lookup(d, e.Name) == in.obj {
 						in.seen++
